@@ -23,6 +23,7 @@ func checkEngine(id, tier, replay string) int {
 	env := run.Setup(id, tier)
 	defer env.Cleanup()
 	env.BuildRepo(false)
+	nsxExternalGroup = true
 	rep := ev.New(env, "exploration")
 	n := 600
 	if tier == "thorough" {
